@@ -277,6 +277,40 @@ def check_raise(eng, ex, c, st, old, entry_frame, entry_heap, r, mod_oids):
         ex.fr.snap_frames = None
 
 
+def apply_case_splits(eng, c, res):
+    """split an obligation into one sub-obligation per value of a small-range term
+    (exhaustive: the cases 0..n-1 plus 'outside the range'); keeps each query small"""
+    if not c.case_split:
+        return
+    from . import sorts as S
+    out = []
+    for o in res.obligations:
+        spec = None
+        for suffix, sp in c.case_split.items():
+            if o.name.endswith(suffix):
+                spec = sp
+        if spec is None or getattr(o, "state", None) is None:
+            out.append(o)
+            continue
+        src, n = spec
+        node = ast.parse(src, mode="eval").body
+        ex = Exec(eng, Frame(eng, None, c), total=True, specmod=c.specmod)
+        v = ex.one(o.state, node)
+        if v.ty == "bv64":
+            cases = [(v.t == z3.BitVecVal(k, 64)) for k in range(n)]
+            rest = z3.UGE(v.t, z3.BitVecVal(n, 64))
+        else:
+            t = ex.as_int(v)
+            cases = [(t == k) for k in range(n)]
+            rest = z3.Or(t < 0, t >= n)
+        for k, cond in enumerate(cases + [rest]):
+            so = Obligation(f"{o.name}[case {k if k < n else 'other'}]", list(o.hyps) + [cond], o.goal, o.kind, o.lineno)
+            so.fuel = o.fuel
+            so.state = o.state
+            out.append(so)
+    res.obligations = out
+
+
 def solve_all(eng, res, timeout_ms=10000):
     t0 = time.time()
     for o in res.obligations:
@@ -308,6 +342,7 @@ def _child_solve(eng, o, timeout_ms, wfd):
     try:
         eng.discharge(o, timeout_ms=timeout_ms)
         out["verdict"] = o.verdict
+        out["backend"] = o.backend or "z3"
         out["time"] = o.time
         out["reason"] = getattr(o, "reason", "")
         out["fuel_used"] = getattr(o, "fuel_used", None)
@@ -384,7 +419,9 @@ def solve_parallel(eng, results, jobs=12, timeout_ms=10000, hard_factor=5.0, pro
                 except Exception:
                     if not getattr(o, "_retried", False):
                         o._retried = True
-                        queue.append((res, o))     # a crashed solver child: retry once
+                        o.safe_mode = True         # the in-process z3 crashed (segfault): retry once with the
+                        o.use_cli = True           # stand-alone z3 binary on the SMT-LIB export
+                        queue.append((res, o))
                         continue
                     out = {"verdict": "unknown", "time": now - start, "reason": "solver child died twice", "backend": "z3", "model": None}
                 o.verdict = out["verdict"]
